@@ -389,4 +389,314 @@ theorem scan_phinv (hx : XLaws env.ops inp Pend Good) : PhInv env inp (ScanX Pen
 
 end
 
+
+/-! ### the lexer instance -/
+
+section
+variable {env : Env κ} {inp : Bytes} {Pend : κ → Bool} {Good : κ → Prop}
+
+/-- normal mode: no feedback directive left over from the scanner, no aux-info request pending -/
+def LNormal (Pend : κ → Bool) (fd : FeedbackDirective) (x : Ctx κ) : Prop := fd = .none ∧ Pend x.sink = false
+
+/-- inside the re-lexed tag: a tag token of the hinted kind (a pending request belongs to a start tag;
+the simulator is ready for the callback of an unhandled request) -/
+def LInTag (Pend : κ → Bool) (fd : FeedbackDirective) (ct : Option TagOutline) (x : Ctx κ) : Prop :=
+  ∃ tok, ct = some tok ∧ (Pend x.sink = true → tok.isStart = true) ∧
+    ∀ k, fd = .applyUnhandled (.requestLexeme k) → CallbackReady x.sim k tok.isStart
+
+def LCore (Pend : κ → Bool) (Good : κ → Prop) (ab : Ab) (fd : FeedbackDirective) (ct : Option TagOutline) (x : Ctx κ) : Prop :=
+  Good x.sink ∧ Inv x.sim ∧ (LNormal Pend fd x ∨ (ab = .inTag ∧ LInTag Pend fd ct x))
+
+def LexX (Pend : κ → Bool) (Good : κ → Prop) (ab : Ab) (m : M κ) : Prop :=
+  ∃ c l x, m = ⟨c, .lexer l, x⟩ ∧ LCore Pend Good ab l.fd l.curTag x
+
+def LexJ (Pend : κ → Bool) (Good : κ → Prop) (d : Directive) (bm : Bookmark) (m : M κ) : Prop :=
+  d = .scan ∧ bm.fd = .none ∧ ∃ c l x, m = ⟨c, .lexer l, x⟩ ∧ Good x.sink ∧ Inv x.sim ∧ LNormal Pend l.fd x
+
+/-- the machine satisfies `A`, and the signal is nothing or a non-`U2` error -/
+def Quiet (A : M κ → Prop) (r : M κ × Option Signal) : Prop :=
+  A r.1 ∧ (r.2 = none ∨ ∃ e, r.2 = some (.err e) ∧ ¬ U2err e)
+
+theorem Quiet.act {A : M κ → Prop} {Jx : Directive → Bookmark → M κ → Prop} {a : ActName} {r : M κ × Option Signal}
+    (h : Quiet A r) :
+    match r.2 with
+    | none => A r.1
+    | some (.err e) => ¬ U2err e ∧ (silentAct a = true → A r.1)
+    | some (.directive d bm) => silentAct a = false ∧ Jx d bm r.1
+    | some (.endOfInput _) => False := by
+  obtain ⟨h1, h2⟩ := h
+  rcases h2 with h2 | ⟨e, h2, h3⟩
+  · rw [h2]; exact h1
+  · rw [h2]; exact ⟨h3, fun _ => h1⟩
+
+theorem LCore.sink {ab : Ab} {fd : FeedbackDirective} {ct : Option TagOutline} {x : Ctx κ} (h : LCore Pend Good ab fd ct x)
+    (s' : κ) (hg : Good x.sink → Good s') (hp : Pend s' = Pend x.sink) : LCore Pend Good ab fd ct { x with sink := s' } := by
+  obtain ⟨h1, h2, h3⟩ := h
+  refine ⟨hg h1, h2, ?_⟩
+  rcases h3 with ⟨a, b⟩ | ⟨a, tok, b1, b2, b3⟩
+  · exact Or.inl ⟨a, by rw [hp]; exact b⟩
+  · exact Or.inr ⟨a, tok, b1, fun hh => b2 (by rw [← hp]; exact hh), b3⟩
+
+theorem LCore.tag {ab : Ab} {fd : FeedbackDirective} {ct ct' : Option TagOutline} {x : Ctx κ} (h : LCore Pend Good ab fd ct x)
+    (hk : ∀ tok, ct = some tok → ∃ tok', ct' = some tok' ∧ tok'.isStart = tok.isStart) : LCore Pend Good ab fd ct' x := by
+  obtain ⟨h1, h2, h3⟩ := h
+  refine ⟨h1, h2, ?_⟩
+  rcases h3 with h3 | ⟨a, tok, b1, b2, b3⟩
+  · exact Or.inl h3
+  · obtain ⟨tok', t1, t2⟩ := hk tok b1
+    exact Or.inr ⟨a, tok', t1, fun hh => by rw [t2]; exact b2 hh, fun k hk' => by rw [t2]; exact b3 k hk'⟩
+
+theorem LCore.out {ab ab' : Ab} {fd : FeedbackDirective} {ct ct' : Option TagOutline} {x : Ctx κ}
+    (h : LCore Pend Good ab fd ct x) (hab : ab ≠ .inTag) : LCore Pend Good ab' fd ct' x := by
+  obtain ⟨h1, h2, h3⟩ := h
+  refine ⟨h1, h2, ?_⟩
+  rcases h3 with h3 | ⟨a, _⟩
+  · exact Or.inl h3
+  · exact absurd a hab
+
+theorem lexEmitNonTag_L (hx : XLaws env.ops inp Pend Good) (c : Common) (l : LexRegs) (x : Ctx κ) (o : Option NonTagOutline)
+    (e : Nat) (ab : Ab) (h : LCore Pend Good ab l.fd l.curTag x) :
+    Quiet (fun m => ∃ l' x', m = ⟨c, .lexer l', x'⟩ ∧ LCore Pend Good ab l'.fd l'.curTag x')
+      (lexEmitNonTag env inp c l x o e) := by
+  unfold lexEmitNonTag
+  dsimp only
+  have hc := h.sink (env.ops.handleNonTag inp ⟨x.prevConsumed, ⟨l.lexemeStart, e⟩, o⟩ x.sink).1 (hx.goodNT _ _) (hx.pendNT _ _)
+  cases hr : (env.ops.handleNonTag inp ⟨x.prevConsumed, ⟨l.lexemeStart, e⟩, o⟩ x.sink).2 with
+  | ok u => exact ⟨⟨_, _, rfl, hc⟩, Or.inl rfl⟩
+  | error e' => exact ⟨⟨_, _, rfl, hc⟩, Or.inr ⟨e', rfl, hx.errNT _ _ _ hr⟩⟩
+
+theorem lexEmitText_L (hx : XLaws env.ops inp Pend Good) (c : Common) (l : LexRegs) (x : Ctx κ)
+    (ab : Ab) (h : LCore Pend Good ab l.fd l.curTag x) :
+    Quiet (fun m => ∃ l' x', m = ⟨c, .lexer l', x'⟩ ∧ LCore Pend Good ab l'.fd l'.curTag x')
+      (lexEmitText env inp c l x) := by
+  unfold lexEmitText
+  split
+  · exact lexEmitNonTag_L hx c l x _ _ ab h
+  · exact ⟨⟨_, _, rfl, h⟩, Or.inl rfl⟩
+
+theorem andThen_eof_L (hx : XLaws env.ops inp Pend Good) (c : Common) (ab : Ab) (r : M κ × Option Signal)
+    (h : Quiet (fun m => ∃ l' x', m = ⟨c, .lexer l', x'⟩ ∧ LCore Pend Good ab l'.fd l'.curTag x') r) :
+    Quiet (fun m => ∃ l' x', m = ⟨c, .lexer l', x'⟩ ∧ LCore Pend Good ab l'.fd l'.curTag x')
+      (andThen r (lexEmitEof env inp)) := by
+  unfold andThen
+  obtain ⟨⟨l', x', hm, hc⟩, h2⟩ := h
+  rcases h2 with h2 | ⟨e, h2, h3⟩
+  · rw [h2]
+    dsimp only
+    rw [hm]
+    unfold lexEmitEof
+    dsimp only
+    exact lexEmitNonTag_L hx c l' x' _ _ ab hc
+  · rw [h2]
+    exact ⟨⟨l', x', hm, hc⟩, Or.inr ⟨e, rfl, h3⟩⟩
+
+theorem lexStampTag_isStart (c : Common) (sim : Sim) (tok : TagOutline) : (lexStampTag c sim tok).2.isStart = tok.isStart := by
+  cases tok <;> rfl
+
+theorem lexEmitTagLexeme_L (hx : XLaws env.ops inp Pend Good) (c : Common) (l : LexRegs) (x : Ctx κ) (sim : Sim)
+    (tok : TagOutline) (e : Nat) (ab : Ab) (hfd : l.fd = .none) (hg : Good x.sink) (hi : Inv sim)
+    (hpend : Pend x.sink = true → tok.isStart = true) :
+    SigPost (LexX Pend Good ab) (LexJ Pend Good) (lexEmitTagLexeme env inp c l x sim tok e) := by
+  unfold lexEmitTagLexeme
+  dsimp only
+  have g := hx.goodT ⟨x.prevConsumed, ⟨l.lexemeStart, e⟩, tok⟩ x.sink hg
+  cases hr : (env.ops.handleTag inp ⟨x.prevConsumed, ⟨l.lexemeStart, e⟩, tok⟩ x.sink).2 with
+  | error e' =>
+    show ¬ U2err e'
+    intro hu
+    obtain ⟨p1, p2⟩ := hx.errT _ _ _ hr hu
+    have := hpend p1
+    simp only at p2
+    rw [p2] at this
+    cases this
+  | ok d =>
+    have p := hx.pendT _ _ d hg hr
+    cases d with
+    | lex => exact ⟨_, _, _, rfl, g, hi, Or.inl ⟨hfd, p⟩⟩
+    | scan => exact ⟨rfl, rfl, _, _, _, rfl, g, hi, hfd, p⟩
+
+theorem lexEmitTag_L (hx : XLaws env.ops inp Pend Good) (c : Common) (l : LexRegs) (x : Ctx κ) (ab ab' : Ab)
+    (h : LCore Pend Good ab l.fd l.curTag x) :
+    SigPost (LexX Pend Good ab') (LexJ Pend Good) (lexEmitTag env inp c l x) := by
+  obtain ⟨hg, hi, hmode⟩ := h
+  unfold lexEmitTag
+  cases hct : l.curTag with
+  | none => simp [SigPost, U2err, U2]
+  | some tok =>
+    dsimp only
+    have hfd : ∀ k, l.fd = .applyUnhandled (.requestLexeme k) → CallbackReady x.sim k tok.isStart := by
+      rcases hmode with ⟨a, _⟩ | ⟨_, tok', b1, _, b3⟩
+      · intro k hk; rw [a] at hk; cases hk
+      · rw [hct] at b1; simp only [Option.some.injEq] at b1; subst b1; exact b3
+    have hpend : Pend x.sink = true → tok.isStart = true := by
+      rcases hmode with ⟨_, b⟩ | ⟨_, tok', b1, b2, _⟩
+      · intro hh; rw [b] at hh; cases hh
+      · rw [hct] at b1; simp only [Option.some.injEq] at b1; subst b1; exact b2
+    obtain ⟨g1, g2⟩ := lexGetFeedback_X (cfg := env.cfg) hi l.fd tok hfd
+    cases hgf : lexGetFeedback env.cfg x.sim l.fd tok with
+    | error e => exact g1 e hgf
+    | ok sf =>
+      obtain ⟨hi1, hready⟩ := g2 sf hgf
+      dsimp only
+      cases hsf : sf.2 with
+      | none =>
+        dsimp only
+        apply lexEmitTagLexeme_L hx _ _ _ _ _ _ _ rfl hg hi1
+        rw [lexStampTag_isStart]; exact hpend
+      | some f =>
+        dsimp only
+        obtain ⟨k1, k2⟩ := lexHandleFeedback_X inp { c with lastTextType := .data } sf.1 f tok hi1
+          (fun k hk => hready k (by rw [hsf, hk]))
+        cases hh : lexHandleFeedback inp { c with lastTextType := .data } sf.1 f tok with
+        | error e => exact k1 e hh
+        | ok cs =>
+          dsimp only
+          apply lexEmitTagLexeme_L hx _ _ _ _ _ _ _ rfl hg (k2 cs hh)
+          rw [lexStampTag_isStart]; exact hpend
+
+
+/-- actions that only edit lexer registers, keeping the feedback directive and the kind of the tag token -/
+def plainAct : ActName → Bool
+  | .createDoctype | .createComment | .startTokenPart | .markCommentTextEnd | .shiftCommentTextEndBy _
+  | .setForceQuirks | .finishDoctypeName | .finishDoctypePublicId | .finishDoctypeSystemId
+  | .markAsSelfClosing | .startAttr | .finishAttrName | .finishAttrValue | .finishAttr
+  | .setClosingQuoteToDouble | .setClosingQuoteToSingle
+  | .markTagStart | .unmarkTagStart | .enterCdata | .leaveCdata => true
+  | _ => false
+
+theorem lexAct_plain (a : ActName) (ha : plainAct a = true) (c : Common) (l : LexRegs) (x : Ctx κ) :
+    ∃ c' l', lexAct env a inp c l x = (⟨c', .lexer l', x⟩, none) ∧ l'.fd = l.fd ∧
+      ∀ tok, l.curTag = some tok → ∃ tok', l'.curTag = some tok' ∧ tok'.isStart = tok.isStart := by
+  cases a <;> simp only [plainAct, Bool.false_eq_true] at ha <;> simp only [lexAct]
+  case markAsSelfClosing =>
+    split
+    · rename_i n h ns as sc heq
+      refine ⟨_, _, rfl, rfl, fun tok ht => ?_⟩
+      rw [heq] at ht
+      simp only [Option.some.injEq] at ht
+      subst ht
+      exact ⟨_, rfl, rfl⟩
+    · exact ⟨_, _, rfl, rfl, fun tok ht => ⟨tok, ht, rfl⟩⟩
+  case finishAttr =>
+    split
+    · split
+      · rename_i n h ns as sc heq
+        refine ⟨_, _, rfl, rfl, fun tok ht => ?_⟩
+        rw [heq] at ht
+        simp only [Option.some.injEq] at ht
+        subst ht
+        exact ⟨_, rfl, rfl⟩
+      · exact ⟨_, _, rfl, rfl, fun tok ht => ⟨tok, ht, rfl⟩⟩
+    · exact ⟨_, _, rfl, rfl, fun tok ht => ⟨tok, ht, rfl⟩⟩
+  all_goals first
+    | exact ⟨_, _, rfl, rfl, fun tok ht => ⟨tok, ht, rfl⟩⟩
+    | (split <;> exact ⟨_, _, rfl, rfl, fun tok ht => ⟨tok, ht, rfl⟩⟩)
+
+theorem align_isStart (t : TagOutline) (o : Nat) : (t.align o).isStart = t.isStart := by
+  cases t <;> rfl
+
+theorem lex_phinv (hx : XLaws env.ops inp Pend Good) : PhInv env inp (LexX Pend Good) (LexJ Pend Good) where
+  frame := by
+    intro ab m c' ⟨c, l, x, hm, h⟩
+    subst hm
+    exact ⟨c', l, x, rfl, h⟩
+  adjust := by
+    intro ab m ⟨c, l, x, hm, h⟩
+    subst hm
+    refine ⟨c, _, x, rfl, ?_⟩
+    apply h.tag
+    intro tok ht
+    simp only [ht, Option.map_some]
+    exact ⟨_, rfl, align_isStart _ _⟩
+  enter := by
+    intro ab m ⟨c, l, x, hm, h⟩
+    subst hm
+    exact ⟨c, l, x, rfl, h⟩
+  leave := by
+    intro ab m ⟨c, l, x, hm, h⟩
+    subst hm
+    exact ⟨c, l, x, rfl, h⟩
+  le := by
+    intro ab ab' m hle ⟨c, l, x, hm, h1, h2, h3⟩
+    refine ⟨c, l, x, hm, h1, h2, ?_⟩
+    rcases h3 with h3 | ⟨a, b⟩
+    · exact Or.inl h3
+    · subst a
+      cases ab' <;> simp [Ab.le] at hle
+      exact Or.inr ⟨rfl, b⟩
+  act := by
+    intro a ab ab' m ⟨c, l, x, hm, h⟩ hp
+    subst hm
+    simp only [act]
+    have hmono : ∀ {r : M κ × Option Signal} {ab1 : Ab},
+        Quiet (fun m => ∃ l' x', m = ⟨c, .lexer l', x'⟩ ∧ LCore Pend Good ab1 l'.fd l'.curTag x') r →
+        Quiet (LexX Pend Good ab1) r := by
+      intro r ab1 ⟨⟨l', x', e1, e2⟩, q⟩
+      exact ⟨⟨c, l', x', e1, e2⟩, q⟩
+    by_cases hplain : plainAct a = true
+    · obtain ⟨c', l', hr, hfd, htag⟩ := lexAct_plain (env := env) (inp := inp) a hplain c l x
+      rw [hr]
+      have hab : ab' = ab := by
+        cases a <;> simp only [plainAct, Bool.false_eq_true] at hplain <;> cases ab <;> simp [phAct] at hp <;> exact hp.symm
+      subst hab
+      refine ⟨c', l', x, rfl, ?_⟩
+      rw [hfd]
+      exact h.tag htag
+    · cases a <;> simp only [plainAct, not_true_eq_false] at hplain <;> simp only [lexAct]
+      case emitText =>
+        have hab : ab' = ab := by cases ab <;> simp [phAct] at hp <;> exact hp.symm
+        subst hab
+        exact (hmono (lexEmitText_L hx c l x ab' h)).act
+      case emitTextAndEof =>
+        have hab : ab' = ab := by cases ab <;> simp [phAct] at hp <;> exact hp.symm
+        subst hab
+        exact (hmono (andThen_eof_L hx c ab' _ (lexEmitText_L hx c l x ab' h))).act
+      case emitCurrentToken =>
+        have hab : ab' = ab := by cases ab <;> simp [phAct] at hp <;> exact hp.symm
+        subst hab
+        exact (hmono (lexEmitNonTag_L hx c { l with curNonTag := none } x _ _ ab' h)).act
+      case emitCurrentTokenAndEof =>
+        have hab : ab' = ab := by cases ab <;> simp [phAct] at hp <;> exact hp.symm
+        subst hab
+        exact (hmono (andThen_eof_L hx c ab' _ (lexEmitNonTag_L hx c { l with curNonTag := none } x _ _ ab' h))).act
+      case emitRawWithoutToken =>
+        have hab : ab' = ab := by cases ab <;> simp [phAct] at hp <;> exact hp.symm
+        subst hab
+        exact (hmono (lexEmitNonTag_L hx c l x _ _ ab' h)).act
+      case emitRawWithoutTokenAndEof =>
+        have hab : ab' = ab := by cases ab <;> simp [phAct] at hp <;> exact hp.symm
+        subst hab
+        exact (hmono (andThen_eof_L hx c ab' _ (lexEmitNonTag_L hx c l x _ _ ab' h))).act
+      case emitTag =>
+        have := lexEmitTag_L (inp := inp) hx c l x ab ab' h
+        unfold SigPost at this
+        cases hs : (lexEmitTag env inp c l x).2 with
+        | none => simp only [hs] at this ⊢; exact this
+        | some sig =>
+          cases sig with
+          | err e => simp only [hs] at this ⊢; exact ⟨this, fun hh => by simp [silentAct] at hh⟩
+          | directive d bm => simp only [hs] at this ⊢; exact ⟨rfl, this⟩
+          | endOfInput k => simp only [hs] at this
+      case createStartTag =>
+        have hab : ab ≠ .inTag := by intro hh; subst hh; simp [phAct] at hp
+        exact ⟨c, _, x, rfl, h.out hab⟩
+      case createEndTag =>
+        have hab : ab ≠ .inTag := by intro hh; subst hh; simp [phAct] at hp
+        exact ⟨c, _, x, rfl, h.out hab⟩
+      case finishTagName =>
+        have hab : ab ≠ .inTag := by intro hh; subst hh; simp [phAct] at hp
+        cases hct : l.curTag with
+        | some t => exact ⟨c, _, x, rfl, h.out hab⟩
+        | none => exact ⟨by simp [U2err, U2], fun hh => by simp [silentAct] at hh⟩
+      case updateTagNameHash =>
+        have hab : ab ≠ .inTag := by intro hh; subst hh; simp [phAct] at hp
+        cases hb : inp[c.pos]? with
+        | none => exact ⟨c, _, x, rfl, h.out hab⟩
+        | some ch =>
+          cases hct : l.curTag with
+          | some t => exact ⟨c, _, x, rfl, h.out hab⟩
+          | none => exact ⟨by simp [U2err, U2], fun _ => ⟨c, _, x, rfl, h.out hab⟩⟩
+
+end
+
 end LolHtml.Model
